@@ -120,7 +120,19 @@ def check_zip(ctx: Context, rep, rule: str, funcs) -> None:
             rep.ob(rule, ranges[0] == 0, loc=fn.loc(c), where=fn.qualname,
                    construct=short(c, 80),
                    message="the bound must be the first argument of zip")
-    rep.floor(rule, n, 3, "bounded prefill zips")
+    # a prefill may also be written as a counted loop with an explicit pull
+    # (`for _ in range(n): x = next(src)`), which has no such pitfall
+    counted = 0
+    for fn in funcs:
+        for lp in [x for x in fn.body_nodes() if isinstance(x, ast.For)]:
+            it = lp.iter
+            if isinstance(it, ast.Call) and isinstance(it.func, ast.Name) and \
+                    it.func.id == "range" and any(
+                        isinstance(x, ast.Call) and isinstance(
+                            x.func, ast.Name) and x.func.id in ("next", "anext")
+                        for b in lp.body for x in ast.walk(b)):
+                counted += 1
+    rep.floor(rule, n + counted, 3, "bounded prefills")
 
 
 def check_borrow(ctx: Context, rep, rule: str, funcs) -> None:
@@ -460,9 +472,11 @@ def check_iter_buffer(ctx: Context, rep, rule: str, fn: FunctionInfo) -> None:
             not comp_prefill.generators[0].ifs
         desc = short(comp_prefill, 80)
     else:
-        ok_app = len(apps) == 1 and isinstance(apps[0].args[0], ast.Call) and \
-            isinstance(apps[0].args[0].func, ast.Name) and \
-            apps[0].args[0].func.id in ("iter", "aiter") and not any(
+        from sa.norm import expand as _xp
+        a0 = _xp(fn, apps[0].args[0]) if len(apps) == 1 else None
+        ok_app = len(apps) == 1 and isinstance(a0, ast.Call) and \
+            isinstance(a0.func, ast.Name) and \
+            a0.func.id in ("iter", "aiter") and not any(
                 apps[0] is x for x in ast.walk(lp))
         desc = short(apps[0]) if apps else "<none>"
     rep.ob(rule, ok_app, loc=fn.loc(apps[0]) if apps else fn.loc(),
@@ -748,14 +762,28 @@ def check_walk(ctx: Context, rep, rule: str) -> None:
     named = wt["named"]
     arg = walk_call(named[0][1], None) if len(named) == 1 and \
         named[0][0] == "gen" else None
-    ok_named = arg is not None and arg.startswith(
-        "self._dataset_info.splits[split]") and arg.count("splits[") == 1
-    guard = [n for n in s.body_nodes() if isinstance(n, ast.If) and
-             ast.unparse(n.test) in (
-                 "split not in self._dataset_info.splits",
-                 "not split in self._dataset_info.splits")]
     from sa.context import raises_in
-    ok_guard = len(guard) == 1 and raises_in(guard[0].body)
+    from sa import norm as _norm
+    TABLE = "self._dataset_info.splits"
+    ok_named = arg is not None and (
+        (arg.startswith(f"{TABLE}[split]") and arg.count("splits[") == 1) or
+        (arg.startswith(f"{TABLE}.get(split)") and arg.count("splits") == 1))
+    guard = [n for n in s.body_nodes() if isinstance(n, ast.If) and
+             _norm.canon(s, n.test) in (
+                 f"split not in {TABLE}", f"not split in {TABLE}",
+                 f"{TABLE}.get(split) is None",
+                 f"not {TABLE}.get(split)") and raises_in(n.body)]
+    ok_guard = len(guard) == 1
+    if ok_guard and arg is not None and ".get(split)" in arg:
+        # the look-up that may yield None is tested before it is walked
+        gcfg = ctx.cfg(s)
+        gnodes = [n for n in gcfg.nodes if n.kind == "test" and
+                  n.ast is guard[0].test]
+        walks = [n for n in gcfg.calls() if ctx.is_call(
+            s, n.ast, method=w.name)]
+        ok_guard = bool(gnodes) and not gcfg.always_before(
+            gnodes, [x for x in walks if ".get(split)" in _norm.canon(
+                s, x.ast)], normal_only=True)
     rep.ob(rule, ok_named and ok_guard, loc=s.loc(), where=s.qualname,
            construct="split given: " + " ++ ".join(
                collalg.pretty(p) for p in named)[:120],
